@@ -227,7 +227,10 @@ pub fn execute_hsrv(plan: &Plan) -> Outcome {
             let cipher = plan.config.cipher.clone();
             let mut buf = vec![0u8; 65536];
             let mut server_pid = 0u64;
-            let server_session: u64 = g.next();
+            // a server may restart (or let its association expire) any number of times while a binding of the client lives:
+            // the session id of its replies changes now and then - back to an earlier one, or to one not used before
+            let sessions: Vec<u64> = (0..5).map(|_| g.next()).collect();
+            let mut server_session: u64 = sessions[0];
             let n_dgrams = flows / 2;
             for i in 0..=n_dgrams {
                 let control = i == n_dgrams;
@@ -254,6 +257,10 @@ pub fn execute_hsrv(plan: &Plan) -> Outcome {
                     _ => Addr::V4(T_IP, T_PORT),
                 };
                 let reply = format!("reply-{i}").into_bytes();
+                if g.chance(35) {
+                    server_session = *g.pick(&sessions);
+                    bump("dgram_reply_server_session_changed");
+                }
                 // ids only ever have to be fresh: the hostile server numbers sparsely (starts near a boundary of the replay window's
                 // ring, jumps of every size class)
                 if i == 0 {
